@@ -1,4 +1,5 @@
 import CobyqaVerif.Props.C14
+import Mathlib.LinearAlgebra.Matrix.NonsingularInverse
 
 /-!
 Solutions of the interpolation system from a certified inverse: if `kkt I * Winv = 1`, then
@@ -67,5 +68,46 @@ theorem isKKT_of_inverse (I : Interp n p K) (Winv : Matrix (Idx n p) (Idx n p) K
     IsKKT I v (solC (Winv *ᵥ rhsOf v)) (solG (Winv *ᵥ rhsOf v)) (solIh (Winv *ᵥ rhsOf v)) := by
   apply isKKT_of_system
   rw [Matrix.mulVec_mulVec, hinv, Matrix.one_mulVec]
+
+/-! ### poised sets: the interpolation problem has exactly one solution -/
+
+/-- the solution vector of a KKT triple -/
+def assemble (ih : Fin p → K) (c : K) (g : Fin n → K) : Idx n p → K
+  | .inl k => ih k
+  | .inr (.inl _) => c
+  | .inr (.inr l) => g l
+
+theorem system_of_isKKT (I : Interp n p K) (v : Fin p → K) (c : K) (g : Fin n → K) (ih : Fin p → K)
+    (h : IsKKT I v c g ih) : kkt I *ᵥ assemble ih c g = rhsOf v := by
+  obtain ⟨h1, h2, h3⟩ := h
+  have eI : solIh (assemble ih c g) = ih := rfl
+  have eC : solC (assemble ih c g) = c := rfl
+  have eG : solG (assemble ih c g) = g := rfl
+  funext a
+  rcases a with k | u | l
+  · rw [kkt_mulVec_inl, eI, eC, eG]; exact h1 k
+  · cases u
+    rw [kkt_mulVec_unit, eI]; exact h2
+  · rw [kkt_mulVec_inr, eI]; exact h3 l
+
+/-- **Poised sets.**  When the interpolation system is nonsingular (`det ≠ 0`: the set is poised for the
+least-Frobenius-norm interpolation), every vector of values has one and only one KKT triple — the solution the
+theorems of C12 / C13 take as a hypothesis exists and is unique. -/
+theorem poised_exists_unique (I : Interp n p K) (hdet : (kkt I).det ≠ 0) (v : Fin p → K) :
+    (∃ c g ih, IsKKT I v c g ih) ∧
+    (∀ c g ih c' g' ih', IsKKT I v c g ih → IsKKT I v c' g' ih' → c = c' ∧ g = g' ∧ ih = ih') := by
+  have hu : IsUnit (kkt I).det := isUnit_iff_ne_zero.mpr hdet
+  constructor
+  · exact ⟨_, _, _, isKKT_of_inverse I (kkt I)⁻¹ (Matrix.mul_nonsing_inv _ hu) v⟩
+  · intro c g ih c' g' ih' h1 h2
+    have e1 := system_of_isKKT I v c g ih h1
+    have e2 := system_of_isKKT I v c' g' ih' h2
+    have hz : assemble ih c g = assemble ih' c' g' := by
+      have := congrArg ((kkt I)⁻¹ *ᵥ ·) (e1.trans e2.symm)
+      simpa [Matrix.mulVec_mulVec, Matrix.nonsing_inv_mul _ hu] using this
+    refine ⟨?_, ?_, ?_⟩
+    · simpa [assemble] using congrFun hz (.inr (.inl ()))
+    · funext l; simpa [assemble] using congrFun hz (.inr (.inr l))
+    · funext k; simpa [assemble] using congrFun hz (.inl k)
 
 end Cobyqa.Alg
